@@ -26,6 +26,146 @@ type covSite struct {
 
 var covCache = map[string][]covSite{}
 
+// childSite is a table hanging off a subtable (a PairSet, a LigatureSet, a rule set,
+// a MarkArray ...) that starts with a count of fixed-size records; the parser has to
+// check count*size against the bytes that are left.
+type childSite struct {
+	sub, child int // absolute offsets of the owning subtable and of the count field
+	gpos       bool
+	typ        int
+	rec        int // bytes per record
+	name       string
+	glyphs     []uint16 // the glyph that selects this child, then others of the coverage
+}
+
+var childCache = map[string][]childSite{}
+
+func popcount16(v int) int {
+	n := 0
+	for ; v != 0; v &= v - 1 {
+		n++
+	}
+	return n
+}
+
+// walkChildren lists the counted child tables of the subtables found by walkLayout.
+func walkChildren(b []byte, t tbl, covs []covSite) []childSite {
+	var out []childSite
+	end := t.off + t.length
+	seen := map[int]bool{}
+	for _, cs := range covs {
+		if seen[cs.sub] || cs.sub+12 > end {
+			continue
+		}
+		seen[cs.sub] = true
+		f := u16(b, cs.sub)
+		ty, gpos, sub := cs.typ, cs.gpos, cs.sub
+		ctx := (!gpos && (ty == 5 || ty == 6)) || (gpos && (ty == 7 || ty == 8))
+		chain := (!gpos && ty == 6) || (gpos && ty == 8)
+		// offset arrays: (position of the count, record size of the children, name)
+		arr, rec, name := -1, 2, ""
+		switch {
+		case !gpos && f == 1 && ty >= 2 && ty <= 4:
+			arr, name = sub+4, [...]string{"Sequence", "AlternateSet", "LigatureSet"}[ty-2]
+		case ctx && f == 1:
+			arr, name = sub+4, "RuleSet"
+		case ctx && f == 2 && !chain:
+			arr, name = sub+6, "ClassRuleSet"
+		case ctx && f == 2 && chain:
+			arr, name = sub+10, "ChainClassRuleSet"
+		case gpos && ty == 2 && f == 1:
+			arr, name = sub+8, "PairSet"
+			rec = 2 * (1 + popcount16(u16(b, sub+4)) + popcount16(u16(b, sub+6)))
+		case gpos && ty == 3 && f == 1:
+			out = append(out, childSite{sub: sub, child: sub + 4, gpos: gpos, typ: ty, rec: 4, name: "EntryExit records", glyphs: cs.glyphs})
+		case gpos && (ty == 4 || ty == 6) && f == 1:
+			cc := u16(b, sub+6)
+			if m := sub + u16(b, sub+8); m+2 <= end {
+				out = append(out, childSite{sub: sub, child: m, gpos: gpos, typ: ty, rec: 4, name: "MarkArray", glyphs: cs.glyphs})
+			}
+			if m := sub + u16(b, sub+10); m+2 <= end && cc > 0 {
+				out = append(out, childSite{sub: sub, child: m, gpos: gpos, typ: ty, rec: 2 * cc, name: "BaseArray/Mark2Array", glyphs: cs.glyphs})
+			}
+		case gpos && ty == 5 && f == 1:
+			if m := sub + u16(b, sub+8); m+2 <= end {
+				out = append(out, childSite{sub: sub, child: m, gpos: gpos, typ: ty, rec: 4, name: "MarkArray", glyphs: cs.glyphs})
+			}
+			if m := sub + u16(b, sub+10); m+2 <= end {
+				out = append(out, childSite{sub: sub, child: m, gpos: gpos, typ: ty, rec: 2, name: "LigatureArray", glyphs: cs.glyphs})
+			}
+		}
+		if arr < 0 || arr+2 > end {
+			continue
+		}
+		n := u16(b, arr)
+		for i := 0; i < n && i < 3 && arr+4+2*i <= end; i++ {
+			o := u16(b, arr+2+2*i)
+			if o == 0 || sub+o+2 > end {
+				continue
+			}
+			ch := childSite{sub: sub, child: sub + o, gpos: gpos, typ: ty, rec: rec, name: fmt.Sprintf("%s[%d]", name, i)}
+			// coverage index i selects child i (format 1 coverage lists its first glyphs in order)
+			if cs.format == 1 && i < len(cs.glyphs) && !(ctx && f == 2) {
+				ch.glyphs = append(ch.glyphs, cs.glyphs[i])
+			}
+			ch.glyphs = append(ch.glyphs, cs.glyphs...)
+			out = append(out, ch)
+		}
+	}
+	return out
+}
+
+// genChildCountCase sets the count of a child table in the window where a length
+// check made in the wrong unit (records, 16-bit words, bytes) still passes: around the
+// number of records that fit in the bytes left, and around its double and its half.
+func genChildCountCase(seed int64, k int, files []*corpus.File) *Case {
+	buildTagIndex(files)
+	var sites []tagSite
+	sites = append(sites, tagIndex[0x47535542]...) // GSUB
+	ng := len(sites)
+	sites = append(sites, tagIndex[0x47504f53]...) // GPOS
+	if len(sites) == 0 {
+		return genFileCase(seed, k, files)
+	}
+	// GPOS twice as often: its children hold records, not only offsets
+	si := k % (len(sites) + len(sites) - ng)
+	if si >= len(sites) {
+		si = ng + (si - len(sites))
+	}
+	site := sites[si]
+	key := fmt.Sprintf("%s/%d", site.file.ID, site.t.off)
+	chs, ok := childCache[key]
+	if !ok {
+		covs, okc := covCache[key]
+		if !okc {
+			covs = walkLayout(site.file.Bytes(), site.t, si >= ng)
+			covCache[key] = covs
+		}
+		chs = walkChildren(site.file.Bytes(), site.t, covs)
+		childCache[key] = chs
+	}
+	if len(chs) == 0 {
+		return genLayoutCase(seed, k, files)
+	}
+	r := gen.New(seed, "C09/layout-child", k)
+	ch := chs[r.Intn(len(chs))]
+	left := site.t.off + site.t.length - ch.child - 2
+	fit := left / ch.rec
+	cands := []int{fit + 1, fit + 2, 2 * fit, 2*fit - 1, 2*fit + 1, fit + fit/2, fit/2 + 1, 4 * fit, fit}
+	v := cands[r.Intn(len(cands))]
+	if v > 0xFFFF {
+		v = 0xFFFF
+	}
+	tag := "GSUB"
+	if ch.gpos {
+		tag = "GPOS"
+	}
+	return &Case{File: site.file.ID, Kind: "layout-child-count", Focus: ch.glyphs,
+		Edits: []Edit{{Off: ch.child, Data: put16(uint16(v))}},
+		Note: fmt.Sprintf("%s lookup type %d subtable@%d %s@%d count %d -> %d (%d records of %d bytes fit)", tag, ch.typ, ch.sub-site.t.off, ch.name, ch.child-site.t.off,
+			u16(site.file.Bytes(), ch.child), v, fit, ch.rec)}
+}
+
 func walkLayout(b []byte, t tbl, gpos bool) []covSite {
 	var out []covSite
 	end := t.off + t.length
